@@ -463,12 +463,40 @@ def _parse_step(rep):
                 files=sorted(x for x in parts[3].split(",") if x), bad=sorted(x for x in parts[4].split(",") if x), dup=parts[5] == "1")
 
 
+_HAS_FIX_PROBE = r"""
+import os, sys, tempfile
+import joblib._memmapping_reducer as mr
+calls = []
+class _RT:
+    def register(self, *a): pass
+    def unregister(self, *a): pass
+    def maybe_unlink(self, name, rtype): calls.append(name)
+mr.resource_tracker = _RT()
+d = tempfile.mkdtemp(prefix="verif-hasfix-")
+m = mr.TemporaryResourcesManager(temp_folder_root=d)
+folder = m.resolve_temp_folder_name()
+os.makedirs(folder, exist_ok=True)
+open(os.path.join(folder, "1-2-x.pkl"), "w").close()
+m._clean_temporary_resources(force=False, allow_non_empty=False)
+m._clean_temporary_resources(force=False, allow_non_empty=False)
+print(len(calls))
+"""
+
+
 def has_fix(repo):
-    """Which variant of the code is under test: with or without fixes/F45 (`_released_files`)."""
+    """Which variant of the code the MODEL must follow (before / after the F45 repair), decided by behaviour, not by the source
+    text: a context holding one file is cleaned twice without force and the MAYBE_UNLINK requests are counted (1 = each extra
+    reference is released once = repaired, 2 = released at every clean-up).  Anything else: the current tree's variant."""
+    import subprocess
     try:
-        return "_released_files" in (Path(repo) / "joblib" / "_memmapping_reducer.py").read_text()
-    except OSError:
-        return False
+        p = subprocess.run([core.PY, "-B", "-c", _HAS_FIX_PROBE], env=dict(os.environ, PYTHONPATH=str(repo)), capture_output=True,
+                           text=True, timeout=60)
+        n = p.stdout.strip().splitlines()[-1] if p.stdout.strip() else ""
+        if n == "2":
+            return False
+    except Exception:  # noqa: BLE001 - a probe never turns a changed tree into an infrastructure error
+        pass
+    return True
 
 
 def judge(run, replies, res, idx):
